@@ -2,6 +2,7 @@ import MlModel.Lemmas.PrefetchStopInv
 import MlModel.Lemmas.PrefetchDead
 import MlModel.Lemmas.PrefetchReplay
 import MlModel.Lemmas.PrefetchMultiDead
+import MlModel.Lemmas.PrefetchTerm
 import MlModel.Properties.C15
 /-!
 # C15 — any number of concurrent requests: what `init_generator` installs, also when it FAILS
@@ -374,5 +375,136 @@ example : ∃ c, Reachable (init 1 [.client ⟨[.val 7, .val 8], 900⟩ 1, .clie
        3, 3, 3, 3, 0, 0, 0, 0, 0, 4, 4, 4, 2, 2, 2, 0, 0, 0, 0, 0, 0, 0, 0, 0, 2, 2, 2, 2, 2, 2, 2, 2, 2, 2, 5, 5, 5,
        0, 0, 0] (by decide),
     by decide, by decide, by decide⟩
+
+/-! ### Termination for any number of concurrent requests (round 11)
+
+`C15_multi_no_request_blocked` says what a configuration WITHOUT enabled step looks like; the theorems below say
+that EVERY schedule reaches such a configuration after finitely many steps — for every request list (client loops
+with their finite generators, healthy and failing `init_generator`, `next_batch`, `stop_prefetch`, `shutdown`
+requests and further server threads, in any number), every prefetch size, every batch size, and without any
+fairness assumption.  Together: "every request eventually ends under every schedule" is a theorem
+(`C15_multi_every_request_ends`).
+
+The measure (`Lemmas/PrefetchTermDefs.lean`, `PrefetchTerm.lean`) is the pair, in lexicographic order `MLt`, of
+* `mHi` — the ONE-TIME server-level events all threads still have before them (bounded by program point), and
+* `mLo` — 3 · Σ over ALL generator queues of the queue-level measure of the queue's view (`Queue.PsiN`: the measure of
+  `C04_variant` with a fixed weight bound and silent inert slots; `Lemmas/QueueVariantN.lean`) + the replies' way
+  back + the share a client loop carries from one `next_batch` call to the next + the server threads' way to their
+  next wait with 4 per pending notification.
+
+The obstacle named in round 8 — a request entering a view adds its consumer's share — is met by the lexicographic
+order (entering a view is a one-time event of `mHi` for everything except a client loop's repeated calls) and, for
+a client loop, by the share it CARRIES: what its consumer releases when it leaves the view of the queue it read
+(`get_batch` returned without end marker, so the consumer is at `bAcq`, not `done`: `Queue.XOK`) is exactly what
+its next call adds to the view of whatever `self._generator` is then — the same queue or a NEW one installed by a
+racing `init_generator` (the C15-F27 situation).  No bound in terms of generator lengths is needed: each queue's
+own measure already pays for every element of its generator.
+-/
+
+/-- **Variant for ANY list of concurrent requests** (every prefetch size, every batch size, every generator, every
+schedule): `multiMeasure N c` with `N = termBound (init p progs)` strictly decreases, in the lexicographic order
+`MLt`, on EVERY step of EVERY thread — the server thread(s), every request thread, every prefetch thread — in every
+reachable configuration. -/
+theorem C15_multi_variant (hreq : Requests progs) (h : Reachable (init p progs) c) {tid : Queue.Tid} {lbl : String}
+    {c' : Cfg} (hs : step c tid = some (lbl, c')) :
+    MLt (multiMeasure (termBound (init p progs)) c') (multiMeasure (termBound (init p progs)) c) :=
+  mvar_reachable hreq h hs
+
+/-- the one-time part of the measure never increases, and the weight bound stays a bound on the number of threads:
+`threads + one-time events ≤ termBound (init p progs)` in every reachable configuration (a thread start is paid by
+the one-time events of the request that starts it) -/
+theorem C15_multi_thread_bound (hreq : Requests progs) (h : Reachable (init p progs) c) :
+    c.ths.length + mHi c ≤ termBound (init p progs) :=
+  bound_reachable hreq h
+
+/-- **No infinite execution for ANY list of concurrent requests**: there is no infinite sequence of steps from a
+reachable configuration — whatever the scheduler does, without any fairness assumption. -/
+theorem C15_multi_terminates (hreq : Requests progs) {f : Nat → Cfg} (h0 : Reachable (init p progs) (f 0)) :
+    ¬ IsRun f :=
+  fun hrun => multi_no_infinite_run hreq h0 hrun
+
+/-- **Every schedule ends** (any concurrent requests): let `f` be ANY sequence of configurations starting at the
+initial one that follows the LTS as long as some thread is enabled.  Then there is a moment `n` at which NO thread
+is enabled any more — the execution is finite —, and `f n` is reachable. -/
+theorem C15_multi_run_ends (hreq : Requests progs) {f : Nat → Cfg} (h0 : f 0 = init p progs)
+    (hmax : ∀ n, enabled (f n) ≠ [] → ∃ tid lbl, step (f n) tid = some (lbl, f (n + 1))) :
+    ∃ n, Reachable (init p progs) (f n) ∧ enabled (f n) = [] := by
+  by_cases hex : ∃ n, (∀ k < n, ∃ tid lbl, step (f k) tid = some (lbl, f (k + 1))) ∧ enabled (f n) = []
+  · obtain ⟨n, hpre, hdead⟩ := hex
+    have hreach : ∀ k ≤ n, Reachable (init p progs) (f k) := by
+      intro k
+      induction k with
+      | zero => intro _; rw [h0]; exact .init
+      | succ k ih =>
+        intro hk
+        obtain ⟨tid, lbl, hs⟩ := hpre k (by omega)
+        exact .step (ih (by omega)) hs
+    exact ⟨n, hreach n (Nat.le_refl n), hdead⟩
+  · exfalso
+    have hall : ∀ n, (∀ k < n, ∃ tid lbl, step (f k) tid = some (lbl, f (k + 1))) ∧ enabled (f n) ≠ [] := by
+      intro n
+      induction n with
+      | zero =>
+        refine ⟨fun k hk => absurd hk (Nat.not_lt_zero k), fun hd => hex ⟨0, fun k hk => absurd hk (Nat.not_lt_zero k), hd⟩⟩
+      | succ n ih =>
+        have hstep : ∀ k < n + 1, ∃ tid lbl, step (f k) tid = some (lbl, f (k + 1)) := by
+          intro k hk
+          rcases Nat.lt_succ_iff_lt_or_eq.mp hk with h | h
+          · exact ih.1 k h
+          · subst h; exact hmax k ih.2
+        exact ⟨hstep, fun hd => hex ⟨n + 1, hstep, hd⟩⟩
+    have hrun : IsRun f := fun n => hmax n (hall n).2
+    exact C15_multi_terminates hreq (f := f) (by rw [h0]; exact .init) hrun
+
+/-- **Every request eventually ends, under every schedule** (liveness for any number of concurrent requests — the
+property's "never leaves a request blocked" at full strength): under EVERY scheduler the execution is finite, and at
+its end every request thread — each client loop, each healthy or failing `init_generator`, each `next_batch`,
+`stop_prefetch` and `shutdown` request — is at its final program point; the only threads that have not ended are
+the server thread parked in `run_until_shutdown` when nobody requested a shutdown, and the prefetch thread of the
+current generator parked on its full queue when that generator is live and nobody reads it
+(`C15_multi_no_request_blocked`). -/
+theorem C15_multi_every_request_ends (hreq : Requests progs) {f : Nat → Cfg} (h0 : f 0 = init p progs)
+    (hmax : ∀ n, enabled (f n) ≠ [] → ∃ tid lbl, step (f n) tid = some (lbl, f (n + 1))) :
+    ∃ n, enabled (f n) = [] ∧
+      (∀ (i : Nat) (pr : Prog), progs[i]? = some pr → pr ≠ .main →
+        ∃ t, (f n).ths[i + 1]? = some t ∧ t.prog = pr ∧ t.pc = .done) ∧
+      (∀ (tid : Queue.Tid) (t : Thread), (f n).ths[tid]? = some t → t.pc = .done ∨ Stuck (f n) tid t) := by
+  obtain ⟨n, hr, hdead⟩ := C15_multi_run_ends hreq h0 hmax
+  exact ⟨n, hdead, fun i pr hi hm => C15_multi_requests_end hreq hr hdead hi hm,
+    fun tid t ht => C15_multi_no_request_blocked hreq hr hdead ht⟩
+
+/-- **A client loop among ANY concurrent requests ends** with an end marker, an exception, or the answer of a server
+without generator / that has been stopped: under every scheduler the execution is finite and at its end the loop has
+recorded how it ended (`outcome`).  (WHAT it has yielded by then is not determined when other requests replace its
+generator: open finding C15-F27.) -/
+theorem C15_multi_client_loop_ends (hreq : Requests progs) {f : Nat → Cfg} (h0 : f 0 = init p progs)
+    (hmax : ∀ n, enabled (f n) ≠ [] → ∃ tid lbl, step (f n) tid = some (lbl, f (n + 1)))
+    {i : Nat} {g : Gen} {b : Nat} (hi : progs[i]? = some (.client g b)) :
+    ∃ n t, enabled (f n) = [] ∧ (f n).ths[i + 1]? = some t ∧ t.prog = .client g b ∧ t.pc = .done := by
+  obtain ⟨n, hdead, hall, -⟩ := C15_multi_every_request_ends hreq h0 hmax
+  obtain ⟨t, ht, hp, hd⟩ := hall i _ hi (by intro hh; cases hh)
+  exact ⟨n, t, hdead, ht, hp, hd⟩
+
+/-! non-vacuity of the termination theorems (tests of the definitions) -/
+
+/-- the request lists of the examples above satisfy `Requests`; the weight bound of the three-request example: 4
+threads + 20 one-time events each -/
+example : Requests [.client ⟨[.val 7, .val 8], 900⟩ 1, .client ⟨[.val 5], 901⟩ 2, .shutdown] := by
+  intro pr hpr k; simp at hpr; rcases hpr with rfl | rfl | rfl <;> simp
+
+example : termBound (init 1 [.client ⟨[.val 7, .val 8], 900⟩ 1, .client ⟨[.val 5], 901⟩ 2, .shutdown]) = 84 := by
+  decide
+
+/-- the one-time part of the measure along the schedule of the example with two racing client loops and a shutdown:
+80 at the start, 0 at the end (everything has ended), and the thread bound holds with room for the two prefetch
+threads -/
+example : mHi (init 1 [.client ⟨[.val 7, .val 8], 900⟩ 1, .client ⟨[.val 5], 901⟩ 2, .shutdown]) = 80 := by decide
+
+example : (fun (r : List (Queue.Tid × String) × Cfg × Bool) => (r.2.2, mHi r.2.1, r.2.1.ths.length))
+    (replay (init 1 [.client ⟨[.val 7, .val 8], 900⟩ 1, .client ⟨[.val 5], 901⟩ 2, .shutdown])
+      [0, 0, 0, 1, 1, 1, 1, 1, 1, 1, 0, 0, 0, 0, 1, 1, 1, 1, 1, 1, 2, 2, 2, 2, 2, 2, 2, 2, 2, 2, 1, 1, 1, 1, 1, 1, 1,
+       3, 3, 3, 3, 0, 0, 0, 0, 0, 4, 4, 4, 2, 2, 2, 0, 0, 0, 0, 0, 0, 0, 0, 0, 2, 2, 2, 2, 2, 2, 2, 2, 2, 2, 5, 5, 5,
+       0, 0, 0] []) = (true, 0, 6) := by decide
+
 
 end MlModel.C15
